@@ -3,7 +3,10 @@ both properties on the implementation's output alone (script + observed results/
 
 Script line:  K<cap> C<nconns> step step ...
   sub,c,req | uns,c,req,target | acc,s | rej,s,code | cl,s,src,k | dr,s,k | snd,s,k,x | tsnd,s,k,x | isc,s,k
-  ret,s,n|m|e,x | cd,c | stop
+  ret,s,n|m|e,x | ab,s,k|d | dp,s | cd,c | stop
+  ab,s,k|d = the subscribe call of s is ABANDONED (the harness's rpc middleware drops the call future and answers 44);
+             k: the pending sink lives on in a task of its own, d: it dies with the handler future.  dp,s = whoever
+             holds the pending sink drops it unanswered.
 Output line (both sides): {"c":[[frame,...] per connection],"end":[closed by the server?],"r":[result per step]}
 Subscription ids come from the harness's counting IdProvider: handle s has id 1000+s.
 """
@@ -12,6 +15,12 @@ import vlib
 
 ID_BASE = 1000
 KNOWN_KEY = "sink-clone-dropped"
+NEVER_ACTIVE_KEY = "unsubscribe-true-for-never-active"
+
+
+def impl_bin():
+    """VERIF_SUBHIST_BIN overrides the implementation binary (a harness copy built against another tree)."""
+    return os.environ.get("VERIF_SUBHIST_BIN") or vlib.rust_bin("subhist")
 
 
 # ---------------------------------------------------------------------------------------------- generator
@@ -25,7 +34,7 @@ def free_slot(sinks):
 class GSub:
     def __init__(self, conn, req):
         self.conn, self.req = conn, req
-        self.state = "P"          # P pending, A active, R rejected, D done
+        self.state = "P"          # P pending, A active, R rejected, D done, B call abandoned + pending sink kept
         self.sinks = set()
         self.returned = False
         self.unsub = False
@@ -44,7 +53,7 @@ class GenSim:
         self.steps = []
 
     def live(self, c):
-        return sum(1 for s in self.subs if s.conn == c and (s.state == "P" or (s.state == "A" and s.sinks)))
+        return sum(1 for s in self.subs if s.conn == c and (s.state in "PB" or (s.state == "A" and s.sinks)))
 
     def next_req(self):
         self.req += 1
@@ -74,10 +83,22 @@ class GenSim:
                     s.state, s.sinks = "A", {0}
                 else:
                     s.state = "D"
+            elif s and s.state == "B":
+                s.state = "D"
         elif k == "rej":
             s = self.subs[int(f[1])] if int(f[1]) < len(self.subs) else None
-            if s and s.state == "P" and not s.returned:
+            if s and ((s.state == "P" and not s.returned) or s.state == "B"):
                 s.state = "R"
+        elif k == "ab":
+            s = self.subs[int(f[1])] if int(f[1]) < len(self.subs) else None
+            if s and s.state == "P" and not s.returned:
+                s.state = "B" if (len(f) < 3 or f[2] == "k") else "D"
+                s.returned = True
+        elif k == "dp":
+            s = self.subs[int(f[1])] if int(f[1]) < len(self.subs) else None
+            if s and ((s.state == "P" and not s.returned) or s.state == "B"):
+                s.state = "D"
+                s.returned = True
         elif k == "cl":
             s = self.subs[int(f[1])] if int(f[1]) < len(self.subs) else None
             if s and int(f[2]) in s.sinks and int(f[3]) not in s.sinks:
@@ -118,6 +139,14 @@ class GenSim:
                 out.append((8, lambda i=i: "acc,%d" % i))
                 out.append((2, lambda i=i: "rej,%d,%d" % (i, rng.choice([-32000, -5, 1, 7, 32001]))))
                 out.append((1, lambda i=i: "ret,%d,%s,%d" % (i, rng.choice("nme"), self.next_x())))
+                out.append((2, lambda i=i: "ab,%d,k" % i))
+                out.append((1, lambda i=i: "ab,%d,d" % i))
+                out.append((1, lambda i=i: "dp,%d" % i))
+            if s.state == "B":
+                out.append((6, lambda i=i: "acc,%d" % i))
+                out.append((2, lambda i=i: "rej,%d,%d" % (i, rng.choice([-32000, -5, 1, 7, 32001]))))
+                out.append((2, lambda i=i: "dp,%d" % i))
+                out.append((1, lambda i=i: rng.choice(["ab,%d,k" % i, "ret,%d,n,0" % i])))
             if s.state == "A":
                 for k in sorted(s.sinks):
                     out.append((5, lambda i=i, k=k: "%s,%d,%d,%d" % (rng.choice(["snd", "snd", "tsnd"]), i, k, self.next_x())))
@@ -145,7 +174,8 @@ class GenSim:
             i = rng.randrange(len(self.subs))
             out.append((1, lambda i=i: rng.choice(["acc,%d" % i, "rej,%d,3" % i, "snd,%d,%d,%d" % (i, rng.randrange(4), self.next_x()),
                                                    "isc,%d,%d" % (i, rng.randrange(4)), "dr,%d,%d" % (i, rng.randrange(4)),
-                                                   "cl,%d,0,0" % i, "cl,%d,5,6" % i, "acc,%d" % (len(self.subs) + 1)])))
+                                                   "cl,%d,0,0" % i, "cl,%d,5,6" % i, "acc,%d" % (len(self.subs) + 1),
+                                                   "ab,%d,k" % i, "ab,%d,d" % i, "dp,%d" % i, "ab,%d,k" % (len(self.subs) + 1)])))
         return out
 
 
@@ -179,8 +209,8 @@ def inject_drop(steps, pos, c):
 
 
 def exhaustive_short(cap, nconns, depth, limit=None, rng=None):
-    """All scripts up to `depth` steps over the state-relative alphabet {sub, acc, rej, ret, clone, drop, send,
-    is_closed, unsubscribe(own/foreign/stale/unknown), conn drop, stop}."""
+    """All scripts up to `depth` steps over the state-relative alphabet {sub, acc, rej, ret, abandon(k/d), drop pending,
+    clone, drop, send, is_closed, unsubscribe(own/foreign/stale/unknown), conn drop, stop}."""
     out = []
 
     def alphabet(g):
@@ -189,7 +219,9 @@ def exhaustive_short(cap, nconns, depth, limit=None, rng=None):
             a.append("sub,%d,%d" % (c, g.req + 1))
         for i, s in enumerate(g.subs):
             if s.state == "P" and not s.returned:
-                a += ["acc,%d" % i, "rej,%d,7" % i, "ret,%d,m,%d" % (i, g.x + 1)]
+                a += ["acc,%d" % i, "rej,%d,7" % i, "ret,%d,m,%d" % (i, g.x + 1), "ab,%d,k" % i, "ab,%d,d" % i, "dp,%d" % i]
+            if s.state == "B":
+                a += ["acc,%d" % i, "rej,%d,7" % i, "dp,%d" % i]
             if s.state == "A":
                 ks = sorted(s.sinks)
                 for k in ks[:2]:
@@ -255,13 +287,112 @@ CORPUS = [
     "K1 C1 sub,0,1 ret,0,n,0 sub,0,2",
     "K1 C1 sub,0,1 acc,0 dr,0,0 sub,0,2",
     "K1 C1 sub,0,1 acc,0 uns,0,2,1000 sub,0,3 dr,0,0 sub,0,4",
+    # abandoned subscribe call: accept on the surviving pending sink fails after the response was enqueued
+    "K1 C1 sub,0,1 ab,0,k acc,0 uns,0,2,1000 sub,0,3 acc,1 uns,0,4,1001",     # entry registered before the fallible sends
+    "K1 C1 sub,0,1 ab,0,k sub,0,2 acc,0 sub,0,3",
+    "K1 C1 sub,0,1 ab,0,d sub,0,2 acc,0 acc,1",
+    "K2 C2 sub,0,1 sub,1,2 ab,0,k acc,0 uns,1,3,1000 uns,0,4,1000 acc,1 uns,1,5,1001",
+    "K1 C1 sub,0,1 acc,0 ab,0,k isc,0,0 snd,0,0,5 uns,0,2,1000",
+    "K1 C1 sub,0,1 ab,0,k rej,0,7 uns,0,2,1000 sub,0,3",
+    "K1 C1 sub,0,1 ab,0,k cd,0 acc,0",
+    "K1 C1 sub,0,1 ab,0,k dp,0 sub,0,2 ab,0,k",
+    "K1 C1 sub,0,1 stop ab,0,k acc,0",
 ]
+
+
+def abandon_family():
+    """Targeted family around the abandoned subscribe call: [other subscription] ; sub ; abandon(k/d) ; [conn drop | stop |
+    slot probe] ; accept/reject/drop/return/nothing ; unsubscribe of that id (own and other connection) ; subscribe again
+    up to the cap and one more ; unsubscribe of a new id.  Also: abandon AFTER accept (must change nothing), double
+    abandon, k abandoned -> k new ones."""
+    out = []
+    for cap in (1, 2, 3):
+        for nconns in (1, 2):
+            for other in ((False, True) if cap >= 2 else (False,)):
+                for mode in "kd":
+                    for mid in ("", "cd", "stop", "probe", "ab"):
+                        for end in ("acc", "rej", "dp", "ret", ""):
+                            st, req, h = [], 0, 0
+                            if other:
+                                req += 1
+                                st += ["sub,0,%d" % req, "acc,%d" % h]
+                                h += 1
+                            req += 1
+                            target = h
+                            st.append("sub,0,%d" % req)
+                            h += 1
+                            st.append("ab,%d,%s" % (target, mode))
+                            if mid == "cd":
+                                st.append("cd,0")
+                            elif mid == "stop":
+                                st.append("stop")
+                            elif mid == "probe":
+                                for _ in range(cap):
+                                    req += 1
+                                    st.append("sub,0,%d" % req)
+                                # those that were admitted are answered so that they do not hold the connection
+                                st += ["rej,%d,3" % j for j in range(h, h + cap)]
+                            elif mid == "ab":
+                                st.append("ab,%d,k" % target)
+                            if end == "acc":
+                                st.append("acc,%d" % target)
+                            elif end == "rej":
+                                st.append("rej,%d,9" % target)
+                            elif end == "dp":
+                                st.append("dp,%d" % target)
+                            elif end == "ret":
+                                st.append("ret,%d,m,77" % target)
+                            req += 1
+                            st.append("uns,0,%d,%d" % (req, ID_BASE + target))
+                            if nconns == 2:
+                                req += 1
+                                st.append("uns,1,%d,%d" % (req, ID_BASE + target))
+                            out.append((cap, nconns, st, req))
+    res = []
+    for cap, nconns, st, req in out:
+        # subscribe again up to the cap and one more; accept what was admitted; unsubscribe the first new id.
+        # Handles are assigned by the implementation: the generator's bookkeeping tells which subscribes are admitted.
+        g = GenSim(cap, nconns)
+        for t in st:
+            g.apply(t)
+        g.req = req
+        tail = []
+        for _ in range(cap + 1):
+            before = len(g.subs)
+            tok = "sub,0,%d" % g.next_req()
+            g.apply(tok)
+            tail.append(tok)
+            if len(g.subs) > before:
+                a = "acc,%d" % before
+                g.apply(a)
+                tail.append(a)
+        new = [i for i, s in enumerate(g.subs) if s.state == "A" and s.sinks and s.conn == 0]
+        if new:
+            tok = "uns,0,%d,%d" % (g.next_req(), ID_BASE + new[-1])
+            g.apply(tok)
+            tail.append(tok)
+        res.append(line_of(cap, nconns, st + tail))
+    # abandon AFTER accept must change nothing; k abandoned -> k new ones; two connections
+    res += [
+        "K1 C1 sub,0,1 acc,0 ab,0,k isc,0,0 snd,0,0,5 uns,0,2,1000 sub,0,3",
+        "K1 C1 sub,0,1 acc,0 ab,0,d isc,0,0 snd,0,0,5 ret,0,m,6 uns,0,2,1000 sub,0,3",
+        "K2 C1 sub,0,1 sub,0,2 ab,0,k ab,1,k sub,0,3 acc,0 acc,1 sub,0,4 sub,0,5 sub,0,6 acc,2 acc,3 uns,0,7,1000 uns,0,8,1001 uns,0,9,1002",
+        "K2 C1 sub,0,1 sub,0,2 ab,0,d ab,1,d sub,0,3 sub,0,4 sub,0,5 acc,2 acc,3 uns,0,7,1000 uns,0,8,1001 uns,0,9,1002",
+        "K3 C1 sub,0,1 sub,0,2 sub,0,3 ab,0,k ab,1,d ab,2,k acc,0 dp,2 sub,0,4 sub,0,5 sub,0,6 sub,0,7 uns,0,8,1000 uns,0,9,1002",
+        "K1 C2 sub,0,1 sub,1,2 ab,0,k ab,1,k acc,1 acc,0 uns,0,3,1001 uns,1,4,1000 uns,0,5,1000 uns,1,6,1001 sub,0,7 sub,1,8 acc,2 acc,3 uns,0,9,1002 uns,1,10,1003",
+        "K1 C2 sub,0,1 ab,0,k cd,0 acc,0 sub,1,2 acc,1 uns,1,3,1000 uns,1,4,1001",
+        "K1 C2 sub,0,1 sub,1,2 ab,0,k stop acc,0 acc,1 snd,1,0,4",
+        "K1 C1 sub,0,1 ab,0,k ab,0,k ab,0,d acc,0 acc,0 dp,0 rej,0,3",
+        "K1 C1 sub,0,1 rej,0,4 ab,0,k sub,0,2 ret,1,n,0 ab,1,k sub,0,3 dp,2 ab,2,k sub,0,4",
+    ]
+    return res
 
 
 def gen_cases(ctx):
     """Returns [(line, tag)].  Deterministic in ctx.rng."""
     rng = ctx.rng
     cases = [(l, "corpus") for l in CORPUS]
+    cases += [(l, "abandon-family") for l in abandon_family()]
     n_rand = ctx.scale(1200, 14000)
     for _ in range(n_rand):
         cap = rng.choice([0, 1, 1, 2, 2, 3])
@@ -307,7 +438,7 @@ def _sha(path):
 
 def run_engine(lines, use_cache=True):
     """Runs implementation and model on `lines`; results cached under work/ keyed by inputs and both binaries."""
-    impl, model = vlib.rust_bin("subhist"), vlib.model_bin("subhist")
+    impl, model = impl_bin(), vlib.model_bin("subhist")
     key = hashlib.sha1(("\n".join(lines) + _sha(impl) + _sha(model)).encode()).hexdigest()[:16]
     path = os.path.join(vlib.WORK, "subhist-%s.json" % key)
     if use_cache and os.path.exists(path):
@@ -335,7 +466,7 @@ def run_engine(lines, use_cache=True):
 
 
 def run_impl(lines):
-    return vlib.run_lines([vlib.rust_bin("subhist")], lines, min_shard=12, timeout=600)
+    return vlib.run_lines([impl_bin()], lines, min_shard=12, timeout=600)
 
 
 # ---------------------------------------------------------------------------------------------- direct oracles
@@ -343,7 +474,7 @@ class OSub:
     def __init__(self, handle, conn, req):
         self.handle, self.conn, self.req = handle, conn, req
         self.sid = ID_BASE + handle
-        self.state = "pending"        # pending | accepted | rejected | failed | dropped
+        self.state = "pending"        # pending | abandoned (call dropped, pending sink kept) | accepted | rejected | failed | dropped
         self.sinks = set()
         self.unsub = False            # a successful unsubscribe named it
         self.returned = False
@@ -390,7 +521,11 @@ def oracles(line, out_text):
     xowner = {}                       # payload x -> ("snd"|"ret", handle)
 
     def live(c):
-        return sum(1 for s in subs if s.conn == c and (s.state == "pending" or (s.state == "accepted" and s.sinks)))
+        # a subscription holds its slot while its pending sink or one of its sinks is alive; the pending sink of an
+        # abandoned call that was kept (ab,s,k) is alive until it is accepted / rejected / dropped
+        return sum(1 for s in subs if s.conn == c and (s.state in ("pending", "abandoned") or (s.state == "accepted" and s.sinks)))
+
+    accepted_ok = set()               # (connection, subscription id) of every accept that reported success
 
     def settle(i):
         # after a stop, a connection ends once none of its subscribe calls is unanswered
@@ -413,7 +548,7 @@ def oracles(line, out_text):
             f04(key, "step %d %s -> %s" % (i, tok, r))
             continue
         sub = None
-        if k in ("acc", "rej", "cl", "dr", "snd", "tsnd", "isc", "ret"):
+        if k in ("acc", "rej", "cl", "dr", "snd", "tsnd", "isc", "ret", "ab", "dp"):
             h = int(f[1])
             sub = subs[h] if h < len(subs) else None
             if sub is None:
@@ -439,11 +574,26 @@ def oracles(line, out_text):
         elif k == "acc":
             if r == "ok":
                 sub.state, sub.sinks = "accepted", {0}
+                accepted_ok.add((sub.conn, sub.sid))
             elif r == "err":
                 sub.state = "failed"
         elif k == "rej":
             if r == "ok":
                 sub.state = "rejected"
+        elif k == "ab":
+            if r == "ok":
+                # the handler future is gone; k: the pending sink (and its slot) lives on, d: it went with the handler
+                sub.returned = True
+                if sub.state == "pending":
+                    sub.state = "abandoned" if (len(f) < 3 or f[2] == "k") else "dropped"
+                else:
+                    f06("abandon-applied-to-answered-call", "step %d %s ok on a %s subscription" % (i, tok, sub.state))
+        elif k == "dp":
+            if r == "ok":
+                if sub.state in ("pending", "abandoned"):
+                    sub.state = "dropped"
+                else:
+                    f04("engine-result", "step %d %s ok on a %s subscription" % (i, tok, sub.state))
         elif k == "cl":
             if r == "ok":
                 sub.sinks.add(int(f[3]))
@@ -483,8 +633,14 @@ def oracles(line, out_text):
             c, req, t = int(f[1]), int(f[2]), int(f[3])
             target = next((s for s in subs if s.conn == c and s.sid == t), None)
             expected = bool(target and target.state == "accepted" and not target.unsub and target.sinks and conn_open[c])
+            # C06, stated on its own: `true` only for a subscription whose accept reported success on this connection
+            never_active = r == "t" and (c, t) not in accepted_ok
+            if never_active:
+                st = target.state if target is not None else "unknown to this connection"
+                f06(NEVER_ACTIVE_KEY, "step %d %s answered true, but no accept of subscription %d ever succeeded on connection %d (it is %s)"
+                    % (i, tok, t, c, st))
             if r in ("t", "f"):
-                if (r == "t") != expected:
+                if (r == "t") != expected and not never_active:
                     known = target is not None and target.clone_dropped and expected
                     f06(KNOWN_KEY if known else "unsubscribe-truth-table",
                         "step %d %s answered %s, expected %s" % (i, tok, r, "true" if expected else "false"))
@@ -609,13 +765,15 @@ def replay_case(payload, prop):
     case = payload["case"]
     line = case["line"] if isinstance(case, dict) else case
     print("script:", line)
-    impl = vlib.sh([vlib.rust_bin("subhist")], input=line + "\n")[1].strip()
+    impl = vlib.sh([impl_bin()], input=line + "\n")[1].strip()
     model = vlib.sh([vlib.model_bin("subhist")], input=line + "\n")[1].strip()
     old = vlib.sh([vlib.model_bin("subhist"), "old"], input=line + "\n")[1].strip()
     print("impl                  ->", impl)
     print("model (repaired drop) ->", model)
     print("model (old drop)      ->", old)
     print("impl == model:", impl == model, "| impl == old-drop model:", impl == old)
+    if os.environ.get("VERIF_SUBHIST_BIN"):
+        print("implementation binary overridden:", impl_bin())
     o = oracles(line, impl)
     for p in ("C04", "C06"):
         print("oracle %s: %s" % (p, "holds" if not o[p] else o[p]))
